@@ -83,7 +83,8 @@ def main(args):
                 ctx.output_path, task_id.path, f.task_output_dir(task_id, version)
             )
             dest_task_path.parent.mkdir(parents=True, exist_ok=True)
-            shutil.copytree(src_task_path, dest_task_path)
+            # Symbolic links inside task outputs are restored as links.
+            shutil.copytree(src_task_path, dest_task_path, symlinks=True)
             if not dest_task_path.is_dir():
                 raise ArchiveFileInvalid().add_extra_context(
                     "Missing copied archived task output for '{}' at version {}.".format(
